@@ -795,6 +795,34 @@ feature cv02 {
 }
 
 #[test]
+fn remap_name_ids_preserves_explicit_elided_fallback_name_id() {
+    use write_fonts::types::NameId;
+
+    let mut compilation = compile_fea(
+        "\
+table name {
+    nameid 2 \"Regular\";
+} name;
+table STAT {
+    ElidedFallbackNameID 2;
+    DesignAxis wght 0 { name \"Weight\"; };
+} STAT;
+",
+        "remap_elided_fallback_name_id",
+    );
+    let stat = compilation.stat.as_ref().unwrap();
+    assert_eq!(stat.elided_fallback_name_id, Some(NameId::SUBFAMILY_NAME));
+    assert_eq!(stat.design_axes[0].axis_name_id, NameId::new(256));
+
+    compilation.remap_name_ids(300);
+
+    // reserved ids written out in the FEA stay as they are, only generated ids move
+    let stat = compilation.stat.as_ref().unwrap();
+    assert_eq!(stat.elided_fallback_name_id, Some(NameId::SUBFAMILY_NAME));
+    assert_eq!(stat.design_axes[0].axis_name_id, NameId::new(300));
+}
+
+#[test]
 fn mark_class_used_in_glyph_class_def() {
     // Mark classes should be accepted wherever glyph classes are expected,
     // including inside glyph class definitions.
